@@ -540,6 +540,19 @@ func checkC07(c *Ctx) {
 		}
 		c.Run.Eval(1)
 		viol := func(sym, detail string) {
+			// Two families of cases have ONE root cause each, whatever the symptom a particular history
+			// produces (an Add / Generator error of whichever plugin trips first, stale bytes, or a package
+			// that does not compile): the class of the case identifies the finding there.
+			if !strings.HasPrefix(sym, "crash") && sym != "file-presence-differs" {
+				switch {
+				case strings.Contains(cs.Class, "retype-nested-result"):
+					detail = "symptom: " + sym + "\n" + detail
+					sym = "stale-inner-result-type"
+				case strings.Contains(cs.Class, ":in-func-signature"):
+					detail = "symptom: " + sym + "\n" + detail
+					sym = "partial-signature-trusted"
+				}
+			}
 			files := map[string]string{"tree/go.mod": pgen.GoMod, "tree/p/p.go": cs.Src, "expected.derived.gen.go": ref.derived}
 			if cs.HasPrev || cs.Strace > 0 {
 				files["tree/p/derived.gen.go"] = o.prior
